@@ -1117,6 +1117,10 @@ def run(tier, seed, replay):
                                       (key, v["name"], src.replace("\n", " "), wants, o))
                 if len(chk.cov["samples"]) < 12 and vi == 0 and ai == 0:
                     chk.sample({"enum": src, "accessor": key, "value": v["name"], "observed": o})
+    chk.notes.append("TryInto: impl/doc/try_into.md shows the owned/ref/ref_mut selection on the enum only; a selection written on a "
+                     "variant is accepted by the macro and is read by the oracle as additional kinds for that variant, but only "
+                     "next to an enum-level selection (classes try-into-impl-missing / accessor-unselected:TryInto); without one "
+                     "a variant attribute also acts as the `#[try_into]` whitelisting mark and only model-vs-code ties apply")
     chk.bump("runtime_pairs", n_pairs)
     chk.cov["traces_validated_against_impl"] += n_tie2
     chk.cov["runtime_table"] = {"enums": len(cases), "pairs": n_pairs, "exhaustive": True,
